@@ -50,6 +50,8 @@ def dump_leaf(lf, prog, n_assumed=0, heap=True):
                 for lo, n, content in obj[2]:
                     if content[0] == 'cells':
                         out.append('   buf %s[%s..+%s] = %s' % (name, show_term(lo), show_term(n), ' '.join(show_term(c) for c in content[1])))
+                    elif content[0] == 'fill':
+                        out.append('   buf %s[%s..+%s] = filled with %s' % (name, show_term(lo), show_term(n), show_term(content[1])))
                     else:
                         sb, slo, shi = content[1]
                         out.append('   buf %s[%s..+%s] = copy of %s[%s..%s]' % (name, show_term(lo), show_term(n), sb[0][1], show_term(slo), show_term(shi)))
